@@ -282,9 +282,11 @@ def build_leg():
 # Statement files whose theorems are ABOUT real numbers may depend on the axioms the standard library itself declares for
 # its real numbers (and nothing else); every name is listed in the trusted base (DESIGN section 8, T0a).  All other
 # statement files must be closed under the global context.
+_REAL_AXIOMS = {"ClassicalDedekindReals.sig_not_dec", "ClassicalDedekindReals.sig_forall_dec",
+                "FunctionalExtensionality.functional_extensionality_dep", "Classical_Prop.classic"}
 STDLIB_AXIOMS_ALLOWED = {
-    "C01FloatDiv": {"ClassicalDedekindReals.sig_not_dec", "ClassicalDedekindReals.sig_forall_dec",
-                    "FunctionalExtensionality.functional_extensionality_dep", "Classical_Prop.classic"},
+    "C01FloatDiv": _REAL_AXIOMS,        # int(a / b) of DIV/REM = Z.quot / Z.rem
+    "C17FloatCeil": _REAL_AXIOMS,       # math.ceil(n / g) of the formatter = exact integer ceiling
 }
 
 
